@@ -267,7 +267,18 @@ func (m *vfModel) observeRole(ctx *vfReqCtx, in *vfIntent, resp *vfResp) {
 	art := &vfArtefact{Kind: "ipcert", Subject: c.Subject.CommonName, Cert: c, AuthAt: time.Now(), Exp: c.NotAfter, KeyName: rr.KeyName, Nets: nets}
 	m.addArt(art)
 	want := vfCanonNets(rr.Nets)
-	if err != nil {
+	if err == nil && rr.Refresh && rr.From != nil && rr.From.Forged != "" {
+		// the certificate presented was made by the harness with a deliberately unusual extension: its recorded netblocks
+		// are the *bound* on the access it may ever give (e.g. 3000 /24 blocks inside 11.0.0.0/8), not the list itself.
+		// A refresh of it must stay inside that bound ("never widen access"); equality is judged for minted certificates
+		for _, n := range nets {
+			if !vfNetWithinAny(n, rr.From.Nets) {
+				w.violate("C11", "netblocks-changed", "netblocks-widened:refresh",
+					fmt.Sprintf("refresh of a certificate with a damaged / unusual extension (%s) yielded %s, outside %v", rr.From.Forged, n, rr.From.Nets))
+				break
+			}
+		}
+	} else if err != nil {
 		w.violate("C11", "netblocks-changed", "netblocks-unreadable", "minted certificate's netblocks cannot be read back: "+err.Error())
 	} else if strings.Join(vfCanonNets(nets), ",") != strings.Join(want, ",") {
 		cls := "netblocks-changed"
